@@ -13,6 +13,7 @@ import (
 	"verifharness/internal/keys"
 	"verifharness/internal/model"
 	"verifharness/internal/prng"
+	"verifharness/internal/script"
 )
 
 var genModel *model.Proc
@@ -462,4 +463,82 @@ func readerShapes(r *prng.R, m []byte) []struct{ label, script string } {
 		}
 	}
 	return out
+}
+
+// genOwnSignerSplices (C06, C04): cross-message splices between two messages
+// produced by the IMPLEMENTATION's own signer / signcryptor with the same key
+// (the reference-sender families above take their header nonces from the
+// harness; here the library draws them).  Two messages of two payload packets
+// each; every packet of one is swapped for the packet at the same position of
+// the other; the receiver must not end without error on content that is
+// neither message.  The request line (model comparison) is the first message's
+// signing request with a short plaintext; the splices are an
+// implementation-side predicate.
+func genOwnSignerSplices(ctx *Ctx, mode string, emit func(Case)) {
+	r := ctx.R.Fork()
+	for k := 0; k < ctx.N(2, 8); k++ {
+		major := 1 + k%2
+		if mode == "sc" {
+			major = 2
+		}
+		seed := r.Bytes(32)
+		signer := keys.NewSigSecret(seed, nil)
+		ring := stdRing()
+		tail := 1 + r.Intn(40)
+		ptA, ptB := r.Bytes(mib+tail), r.Bytes(mib+tail)
+		var a, b []byte
+		var errA, errB error
+		v := saltpack.Version{Major: major}
+		recSec := r.Bytes(32)
+		cr := &keys.EphCreator{Secret: r.Bytes(32)}
+		recPub := keys.NewBoxSecret(recSec, false, nil, cr).Pub
+		script.With(&prngReader{r}, func() {
+			if mode == "sc" {
+				a, errA = saltpack.SigncryptSeal(ptA, cr, signer, []saltpack.BoxPublicKey{recPub}, nil)
+				b, errB = saltpack.SigncryptSeal(ptB, cr, signer, []saltpack.BoxPublicKey{recPub}, nil)
+			} else {
+				a, errA = saltpack.Sign(v, ptA, signer)
+				b, errB = saltpack.Sign(v, ptB, signer)
+			}
+		})
+		short := r.Bytes(20)
+		line := fmt.Sprintf("sig.attached %d 0 %s %s %d %s", major, keys.Hex(seed), randSigScript(r, -1, 0).Spec(), mib, keys.Hex(short))
+		out := goExec(line)
+		emit(Case{Stream: mode + ".ownsigner.splice", Line: line, GoOut: out, Branch: fmt.Sprintf("%s.v%d", mode, major),
+			Sample: map[string]interface{}{"op": "splices between two messages of the library's own " + mode + " sender", "major": major, "plaintext_len": mib + tail},
+			Direct: func() string {
+				if errA != nil || errB != nil {
+					return fmt.Sprintf("the library's sender failed: %v %v", errA, errB)
+				}
+				oa, _ := mpSplit(a)
+				ob, _ := mpSplit(b)
+				if len(oa) != len(ob) || len(oa) < 3 {
+					return fmt.Sprintf("unexpected packet counts %d %d", len(oa), len(ob))
+				}
+				open := func(msg []byte) ([]byte, error) {
+					if mode == "sc" {
+						kr := stdRing(recSec)
+						_, pt, err := saltpack.SigncryptOpen(msg, kr, nil)
+						return pt, err
+					}
+					_, pt, err := saltpack.Verify(saltpack.CheckKnownMajorVersion, msg, ring)
+					return pt, err
+				}
+				// sanity: both genuine messages open
+				if pt, err := open(a); err != nil || !bytes.Equal(pt, ptA) {
+					return fmt.Sprintf("a genuine message of the library's own sender does not open: %v", err)
+				}
+				for pos := 0; pos < len(oa); pos++ { // pos 0 = header
+					sp := make([][]byte, len(oa))
+					copy(sp, oa)
+					sp[pos] = ob[pos]
+					msg := bytes.Join(sp, nil)
+					pt, err := open(msg)
+					if err == nil && !bytes.Equal(pt, ptA) && !bytes.Equal(pt, ptB) {
+						return fmt.Sprintf("a cross-message splice of two %s messages by the same key (object %d of message B put into message A; both produced by the library, version %d, %d-byte plaintexts, signer seed %x) is accepted without error and releases %d bytes that are neither message", mode, pos, major, len(ptA), seed, len(pt))
+					}
+				}
+				return ""
+			}})
+	}
 }
